@@ -1173,7 +1173,7 @@ impl<'a> Parser<'a> {
         if self.is_p("(") || self.is_p("<") || (self.is_kw("new") && (self.peek_is_p(1, "(") || self.peek_is_p(1, "<"))) {
             return self.unsupported("call / construct signatures are outside the supported subset");
         }
-        if self.is_p("+") || self.is_p("-") {
+        if (self.is_p("+") || self.is_p("-")) && (self.peek_is_p(1, "[") || self.peek_is_kw(1, "readonly")) {
             return self.unsupported("mapped type modifiers are outside the supported subset");
         }
         let key = match self.prop_key(0) {
